@@ -263,6 +263,9 @@ type c03World struct {
 	// koordinator-default-quota / koordinator-system-quota: RefreshRuntime never writes their Runtime list
 	special map[int]bool
 	stream  string
+	// set by a webhook-illegal meta change (wild / exhaustive streams): the manager's books are then off by design of
+	// the code, the used = assigned clauses and the consistency assumptions are not claimed any more
+	acctBroken bool
 }
 
 // below: q and every planned/registered group under it.
@@ -315,6 +318,9 @@ func c03LeqMax(a [c03D]int64, max c03RL) bool {
 // implementation's own report, with the is-parent flags the reset will see: what the groups of a subtree own
 // (SelfUsed of an is-parent group, Used otherwise) is non-negative and does not exceed what the subtree's top shows.
 func (w *c03World) checkTreeConsistent() {
+	if w.acctBroken {
+		return
+	}
 	sums := w.gp.groupQuotaManager.GetQuotaSummaries(false)
 	own := func(id int, np bool) c03RL {
 		s := sums[c03QName(id)]
@@ -367,6 +373,9 @@ func (w *c03World) checkTreeConsistent() {
 // the implementation's own report before a move: the moved group's own part is within its total, and its total is
 // contained in every old ancestor's.  (The clauses `fits` / `exLeaf` are what the generator itself guarantees.)
 func (w *c03World) checkReparentAssumption(x *c03Quota) {
+	if w.acctBroken {
+		return
+	}
 	sums := w.gp.groupQuotaManager.GetQuotaSummaries(false)
 	sx := sums[c03QName(x.id)]
 	if sx == nil {
@@ -400,16 +409,8 @@ func (w *c03World) afterReset() {
 	}
 }
 
-// metaEvent: one quota update that changes meta: allow-lent flip or is-parent flip (=> resetQuotaNoLock) or a
-// parent-label change (=> updateQuotaNoLockWhenParentChange).  Only shapes the webhook admits: is-parent goes to
-// false only without child groups and to true only without assigned pods; a new parent is an is-parent group outside
-// the moved subtree that declares every dimension the moved group declares.  In the closed-loop streams a move
-// must also fit (the moved usage stays within every new ancestor's max when parent checking is on; an old parent
-// left without child groups shows own usage within max/min) - moving a subtree is not an admission.
-func (w *c03World) metaEvent(r *vRand, pending *int) {
-	if len(w.order) == 0 {
-		return
-	}
+// resetTags: coverage tags of a tree reset.
+func (w *c03World) resetTags(kind string, pending int) {
 	npPending, anyAssigned := false, false
 	for _, p := range w.pods {
 		if p.inCache && !p.assigned && p.np {
@@ -419,47 +420,217 @@ func (w *c03World) metaEvent(r *vRand, pending *int) {
 			anyAssigned = true
 		}
 	}
-	resetTags := func(kind string) {
-		w.h.Tag("meta:" + kind)
-		if npPending {
-			w.h.Tag("reset:with-pending-non-preemptible-pod")
+	w.h.Tag("meta:" + kind)
+	if npPending {
+		w.h.Tag("reset:with-pending-non-preemptible-pod")
+	}
+	if anyAssigned {
+		w.h.Tag("reset:with-assigned-pods")
+	}
+	if pending != 0 {
+		w.h.Tag("interleave:reset-inside-cycle")
+	}
+}
+
+// flipLegal: the webhook admits the is-parent flip of q (to false only without child groups, to true only without
+// assigned pods).
+func (w *c03World) flipLegal(q *c03Quota) bool {
+	if q.isParent {
+		return !w.plannedChild(q.id)
+	}
+	for _, p := range w.pods {
+		if p.quota == q.id && p.assigned {
+			return false
 		}
-		if anyAssigned {
-			w.h.Tag("reset:with-assigned-pods")
+	}
+	return true
+}
+
+// doFlip: allow-lent or is-parent flip of q => updateQuotaInfoFromRemote + resetQuotaNoLock.
+func (w *c03World) doFlip(q *c03Quota, isParent bool, pending int) {
+	if isParent {
+		if !w.flipLegal(q) {
+			w.h.Tag("meta:is-parent-flip:webhook-illegal")
+			if q.isParent {
+				// is-parent -> false with child groups: the reset saves Used, which includes the children's usage, and
+				// adds the children's own on top; model correspondence only, the oracle's clauses are off from here on
+				w.acctBroken = true
+				w.closedLoop = false
+			}
 		}
-		if *pending != 0 {
-			w.h.Tag("interleave:reset-inside-cycle")
+		q.isParent = !q.isParent
+		w.resetTags(fmt.Sprintf("is-parent-flip:%v", q.isParent), pending)
+	} else {
+		q.lent = !q.lent
+		w.resetTags("lent-flip", pending)
+	}
+	w.checkTreeConsistent()
+	w.setQuota(q)
+	w.afterReset()
+}
+
+// moveFits: the clauses `fits` / `exLeaf` of ReparentOK by the oracle's own books: with parent checking on the moved
+// usage stays within the max of every ancestor that is new; an old parent left without child groups shows own usage
+// within max / min.
+func (w *c03World) moveFits(x *c03Quota, p int) bool {
+	xUsed, xNp := w.usedO(x.id, false), w.usedO(x.id, true)
+	oldAnc := map[int]bool{}
+	for _, a := range w.chain(x.parent) {
+		oldAnc[a] = true
+	}
+	if w.cfgCP {
+		for _, g := range w.chain(p) {
+			if oldAnc[g] {
+				continue
+			}
+			u := w.usedO(g, false)
+			for d := 0; d < c03D; d++ {
+				u[d] += xUsed[d]
+			}
+			if !c03LeqMax(u, w.quotas[g].max) {
+				return false
+			}
 		}
+	}
+	if o := x.parent; o != 0 {
+		other := false
+		for id, y := range w.quotas {
+			if y.parent == o && id != x.id && y.added {
+				other = true
+			}
+		}
+		if !other { // the old parent is left without child groups
+			u, n := w.usedO(o, false), w.usedO(o, true)
+			for d := 0; d < c03D; d++ {
+				u[d] -= xUsed[d]
+				n[d] -= xNp[d]
+			}
+			if !c03LeqMax(u, w.quotas[o].max) || !c03LeqMax(n, w.quotas[o].min) {
+				return false
+			}
+		}
+	}
+	return true
+}
+
+// moveShapeOK: the webhook admits p as the new parent of x (an is-parent group or the root, outside x's subtree,
+// declaring every dimension x declares); depth bounded to 5 levels.
+func (w *c03World) moveShapeOK(x *c03Quota, p int) bool {
+	sub := w.below(x.id)
+	if p == x.parent || sub[p] {
+		return false
+	}
+	if p == 0 {
+		return true
+	}
+	if !w.quotas[p].added || !w.quotas[p].isParent {
+		return false
+	}
+	height := 0
+	for id := range sub {
+		if n := len(w.chainPlan(id)) - len(w.chainPlan(x.id)); n > height {
+			height = n
+		}
+	}
+	if len(w.chain(p))+height+1 > 5 {
+		return false
+	}
+	for d := 0; d < c03D; d++ {
+		if x.max.has[d] && !w.quotas[p].max.has[d] {
+			return false
+		}
+	}
+	return true
+}
+
+// doMove: parent-label change of x => updateQuotaNoLockWhenParentChange.
+func (w *c03World) doMove(x *c03Quota, np int, flipLent bool, pending *int) {
+	kind := "leaf"
+	if w.hasChild(x.id) {
+		kind = "intermediate"
+	}
+	w.h.Tag("meta:reparent:" + kind)
+	xUsed, xNp := w.usedO(x.id, false), w.usedO(x.id, true)
+	var zero [c03D]int64
+	if xUsed != zero {
+		w.h.Tag("meta:reparent:" + kind + ":with-usage")
+		own := zero
+		for _, p := range w.pods {
+			if p.assigned && p.quota == x.id {
+				m := w.reqM(p)
+				for d := 0; d < c03D; d++ {
+					own[d] += m[d]
+				}
+			}
+		}
+		if own != xUsed && xNp == zero {
+			w.h.Tag("meta:reparent:children-usage-preemptible-only")
+		}
+	}
+	if !x.isParent && w.hasChild(x.id) {
+		// only after a webhook-illegal is-parent flip: the children's usage is dropped by the move
+		w.acctBroken = true
+		w.closedLoop = false
+	}
+	if !w.moveFits(x, np) {
+		w.h.Tag("meta:reparent:does-not-fit")
+		w.closedLoop = false // moving a subtree is not an admission: the used <= max clauses are off from here on
+	}
+	if *pending != 0 {
+		// between PreFilter and Reserve of the admitted pod: a move touches its path when the moved group is on it
+		// (the new ancestors were never checked; Lean: interleaved_reparent_counterexample) or when moved usage arrives
+		// under one of its ancestors (checked before the arrival; Lean: interleaved_arrival_counterexample).
+		// Such interleavings are outside the closed-loop histories: the admission is dropped.
+		path := map[int]bool{}
+		for _, a := range w.chain(w.pods[*pending].quota) {
+			path[a] = true
+		}
+		touch := path[x.id]
+		if xUsed != zero {
+			for _, g := range w.chain(np) {
+				if path[g] {
+					touch = true
+				}
+			}
+		}
+		if touch {
+			w.h.Tag("interleave:reparent-touches-admitted-path")
+			if w.closedLoop {
+				*pending = 0
+			}
+		} else {
+			w.h.Tag("interleave:reparent-off-admitted-path")
+		}
+	}
+	w.checkReparentAssumption(x)
+	x.parent = np
+	if flipLent {
+		x.lent = !x.lent // a parent change wins over every other meta change
+	}
+	w.setQuota(x)
+	x.lastRT = nil
+}
+
+// metaEvent: one quota update that changes meta: allow-lent flip or is-parent flip (=> resetQuotaNoLock) or a
+// parent-label change (=> updateQuotaNoLockWhenParentChange).  Shapes the webhook admits; in the closed-loop
+// streams a move must also fit (moveFits) - moving a subtree is not an admission.  The wild stream also takes
+// is-parent flips the webhook refuses and moves that do not fit.
+func (w *c03World) metaEvent(r *vRand, pending *int) {
+	if len(w.order) == 0 {
+		return
 	}
 	switch k := r.Intn(10); {
 	case k < 3:
-		q := w.quotas[w.order[r.Intn(len(w.order))]]
-		q.lent = !q.lent
-		resetTags("lent-flip")
-		w.checkTreeConsistent()
-		w.setQuota(q)
-		w.afterReset()
+		w.doFlip(w.quotas[w.order[r.Intn(len(w.order))]], false, *pending)
 	case k < 5:
-		ids := w.sortedIDs(func(q *c03Quota) bool {
-			if q.isParent {
-				return !w.plannedChild(q.id)
-			}
-			for _, p := range w.pods {
-				if p.quota == q.id && p.assigned {
-					return false
-				}
-			}
-			return true
-		})
+		ids := w.sortedIDs(w.flipLegal)
+		if w.stream == "wild" && r.Chance(1, 3) {
+			ids = w.sortedIDs(func(q *c03Quota) bool { return true })
+		}
 		if len(ids) == 0 {
 			return
 		}
-		q := w.quotas[ids[r.Intn(len(ids))]]
-		q.isParent = !q.isParent
-		resetTags(fmt.Sprintf("is-parent-flip:%v", q.isParent))
-		w.checkTreeConsistent()
-		w.setQuota(q)
-		w.afterReset()
+		w.doFlip(w.quotas[ids[r.Intn(len(ids))]], true, *pending)
 	default:
 		// re-parent; prefer intermediate (is-parent) groups
 		ids := w.sortedIDs(func(q *c03Quota) bool { return true })
@@ -467,70 +638,12 @@ func (w *c03World) metaEvent(r *vRand, pending *int) {
 			ids = inner
 		}
 		x := w.quotas[ids[r.Intn(len(ids))]]
-		sub := w.below(x.id)
-		height := 0
-		for id := range sub {
-			if n := len(w.chainPlan(id)) - len(w.chainPlan(x.id)); n > height {
-				height = n
-			}
-		}
-		xUsed, xNp := w.usedO(x.id, false), w.usedO(x.id, true)
-		oldAnc := map[int]bool{}
-		for _, a := range w.chain(x.parent) {
-			oldAnc[a] = true
-		}
-		fits := func(p int) bool {
-			if w.cfgCP {
-				for _, g := range w.chain(p) {
-					if oldAnc[g] {
-						continue
-					}
-					u := w.usedO(g, false)
-					for d := 0; d < c03D; d++ {
-						u[d] += xUsed[d]
-					}
-					if !c03LeqMax(u, w.quotas[g].max) {
-						return false
-					}
-				}
-			}
-			if o := x.parent; o != 0 {
-				other := false
-				for id, y := range w.quotas {
-					if y.parent == o && id != x.id && y.added {
-						other = true
-					}
-				}
-				if !other { // the old parent is left without child groups
-					u, n := w.usedO(o, false), w.usedO(o, true)
-					for d := 0; d < c03D; d++ {
-						u[d] -= xUsed[d]
-						n[d] -= xNp[d]
-					}
-					if !c03LeqMax(u, w.quotas[o].max) || !c03LeqMax(n, w.quotas[o].min) {
-						return false
-					}
-				}
-			}
-			return true
-		}
 		var targets []int
 		for _, p := range append([]int{0}, w.sortedIDs(func(q *c03Quota) bool { return q.isParent })...) {
-			if p == x.parent || sub[p] {
+			if !w.moveShapeOK(x, p) {
 				continue
 			}
-			if p != 0 {
-				ok := len(w.chain(p))+height+1 <= 5
-				for d := 0; d < c03D; d++ {
-					if x.max.has[d] && !w.quotas[p].max.has[d] {
-						ok = false
-					}
-				}
-				if !ok {
-					continue
-				}
-			}
-			if w.closedLoop && !fits(p) {
+			if w.closedLoop && !w.moveFits(x, p) {
 				w.h.Tag("meta:reparent-skipped-does-not-fit")
 				continue
 			}
@@ -540,46 +653,7 @@ func (w *c03World) metaEvent(r *vRand, pending *int) {
 			return
 		}
 		np := targets[r.Intn(len(targets))]
-		kind := "leaf"
-		if w.hasChild(x.id) {
-			kind = "intermediate"
-		}
-		w.h.Tag("meta:reparent:" + kind)
-		var zero [c03D]int64
-		if xUsed != zero {
-			w.h.Tag("meta:reparent:" + kind + ":with-usage")
-			own := zero
-			for _, p := range w.pods {
-				if p.assigned && p.quota == x.id {
-					m := w.reqM(p)
-					for d := 0; d < c03D; d++ {
-						own[d] += m[d]
-					}
-				}
-			}
-			if own != xUsed && xNp == zero {
-				w.h.Tag("meta:reparent:children-usage-preemptible-only")
-			}
-		}
-		if *pending != 0 {
-			for _, a := range w.chain(w.pods[*pending].quota) {
-				if a == x.id {
-					// the admitted pod's ancestors change between PreFilter and Reserve: the new ancestors were never
-					// checked (Lean: interleaved_reparent_counterexample); outside the closed-loop histories
-					w.h.Tag("interleave:reparent-on-admitted-path")
-					if w.closedLoop {
-						*pending = 0
-					}
-				}
-			}
-		}
-		w.checkReparentAssumption(x)
-		x.parent = np
-		if r.Chance(1, 5) {
-			x.lent = !x.lent // a parent change wins over every other meta change
-		}
-		w.setQuota(x)
-		x.lastRT = nil
+		w.doMove(x, np, r.Chance(1, 5), pending)
 	}
 }
 
@@ -655,10 +729,10 @@ func (w *c03World) dump() {
 		// what admission relies on: the reported used of a group is the sum of the (masked) requests of the pods
 		// currently assigned in its subtree - whatever happened before (every stream: roll-backs, deletions,
 		// re-parenting, tree resets, lowered max, unadmitted reserves)
-		if uo := w.usedO(id, false); u.v != uo {
+		if uo := w.usedO(id, false); u.v != uo && !w.acctBroken {
 			w.h.Fail("C03:used-ne-assigned", "group %d reports used %v, the pods assigned in its subtree request %v", id, u.v, uo)
 		}
-		if no := w.usedO(id, true); n.v != no {
+		if no := w.usedO(id, true); n.v != no && !w.acctBroken {
 			w.h.Fail("C03:used-ne-assigned:np", "group %d reports nonPreemptibleUsed %v, the non-preemptible pods assigned in its subtree request %v", id, n.v, no)
 		}
 		if !w.closedLoop || (w.special[id] && w.cfgRT) {
@@ -763,6 +837,9 @@ func (w *c03World) attempt(p *c03Pod) bool {
 	w.h.Obs("v %d", code)
 	w.h.Tag(fmt.Sprintf("verdict:rt%d-cp%d:%d", vB(w.cfgRT), vB(w.cfgCP), code))
 
+	if w.acctBroken {
+		return fwktype.Code(code) == fwktype.Success // correspondence only
+	}
 	// ---- oracle ----
 	m := w.reqM(p)
 	leaf := ch[0]
@@ -1321,6 +1398,178 @@ func c03DefaultCase(t *testing.T, h *vHarness, idx int) {
 				gp.OnPodAdd(p.obj)
 				p.inCache = true
 				w.dump()
+			}
+		}
+	}
+	if admitted > 0 {
+		h.Nontrivial()
+	}
+}
+
+// TestVerifC03Exhaustive (thorough tier): EVERY sequence of 4 events from a 12-letter alphabet, for each of the four
+// switch combinations, over one fixed small world:
+//   root <- 1 (is-parent, cpu max 3, min 3) <- 2 (cpu max 3, min 2);  root <- 3 (is-parent, cpu max 2, min 2) <- 4 (cpu max 2, min 1)
+//   pod 1 (group 2, cpu 2), pod 2 (group 2, non-preemptible, cpu 1), pod 3 (group 4, cpu 1), all known to the manager.
+// Alphabet: scheduling cycle of pod 1 / 2 / 3; Unreserve pod 1; delete-or-re-add pod 2; move group 2 (1 <-> 3); move
+// group 3 with its subtree (root <-> 1); allow-lent flip of group 1; is-parent flip of group 2; is-parent flip of
+// group 3 (refused by the webhook while it has a child: model correspondence only); PreFilter of pod 2 alone (leaves
+// the admission open); Reserve of the open admission.  A move that does not fit switches the used <= max clauses off.
+func TestVerifC03Exhaustive(t *testing.T) {
+	h := vOpen("C03")
+	if h == nil {
+		t.Skip("VERIF_OUT not set")
+	}
+	c03Names = nil
+	const nev, length = 12, 4
+	words := 1
+	for i := 0; i < length; i++ {
+		words *= nev
+	}
+	n := h.N(0, 4*words)
+	const batch = 144
+	for base := 0; base < n; base += batch {
+		t.Run(fmt.Sprintf("batch%d", base), func(t *testing.T) {
+			// one fixture per batch, one fresh plugin (= fresh GroupQuotaManager) per case: the fixture is what is slow
+			suit := newPluginTestSuit(t, nil)
+			var lvl klog.Level
+			_ = lvl.Set("0")
+			for idx := base; idx < base+batch && idx < n; idx++ {
+				c03ExhaustiveCase(t, h, suit, idx, idx/words, idx%words, nev, length)
+			}
+		})
+	}
+	h.Close("exhaustive small scope: all 12^4 event words x 4 switch combinations over a fixed 4-group / 3-pod world (see the test's comment); " +
+		"non-trivial = at least one admitted attempt; distinct by op lines")
+}
+
+func c03ExhaustiveCase(t *testing.T, h *vHarness, suit *pluginTestSuit, idx, sw, word, nev, length int) {
+	r := h.Begin(idx)
+	if r == nil {
+		return
+	}
+	defer h.End()
+	// the plugin is built by the fixture's factory but its informers are not started (createPlugin waits ~100 ms per
+	// instance for cache syncs): every event of this stream is delivered by calling the handler, and every pod carries
+	// its quota label, so neither listers nor informer events are needed
+	pl, err := suit.proxyNew(context.TODO(), suit.elasticQuotaArgs, suit.Handle)
+	if err != nil {
+		t.Fatalf("failed to create plugin: %v", err)
+	}
+	gp := pl.(*Plugin)
+	w := &c03World{t: t, h: h, gp: gp, cfgRT: sw&1 == 1, cfgCP: sw&2 == 2, quotas: map[int]*c03Quota{}, pods: map[int]*c03Pod{},
+		stream: "exhaustive", closedLoop: true}
+	gp.pluginArgs.EnableRuntimeQuota = w.cfgRT
+	gp.pluginArgs.EnableCheckParentQuota = w.cfgCP
+	h.Tag(fmt.Sprintf("switches:rt%d-cp%d", vB(w.cfgRT), vB(w.cfgCP)))
+	h.Op("dims %d", c03D)
+	full := [c03D]bool{true, true, true}
+	mk := func(id, parent int, isParent bool, cpuMax, cpuMin int64) {
+		w.quotas[id] = &c03Quota{id: id, parent: parent, isParent: isParent, lent: true,
+			max: c03RL{has: full, v: [c03D]int64{cpuMax, 100, 100}}, min: c03RL{has: full, v: [c03D]int64{cpuMin, 100, 100}}}
+	}
+	mk(1, 0, true, 3000, 3000)
+	mk(2, 1, false, 3000, 2000)
+	mk(3, 0, true, 2000, 2000)
+	mk(4, 3, false, 2000, 1000)
+	capacity := c03RL{has: full, v: [c03D]int64{20000, 1000, 1000}}
+	w.rv++
+	h.Op("cap %s", vInts(capacity.v[:]))
+	gp.OnNodeAdd(c03Node(capacity, w.rv))
+	w.dump()
+	for id := 1; id <= 4; id++ {
+		w.setQuota(w.quotas[id])
+	}
+	addPod := func(p *c03Pod) {
+		h.Op("podadd %d", p.id)
+		gp.OnPodAdd(p.obj)
+		p.inCache = true
+		w.dump()
+	}
+	for _, p := range []*c03Pod{
+		{id: 1, quota: 2, req: c03RL{has: [c03D]bool{true, false, false}, v: [c03D]int64{2000, 0, 0}}},
+		{id: 2, quota: 2, np: true, req: c03RL{has: [c03D]bool{true, false, false}, v: [c03D]int64{1000, 0, 0}}},
+		{id: 3, quota: 4, req: c03RL{has: [c03D]bool{true, false, false}, v: [c03D]int64{1000, 0, 0}}},
+	} {
+		p.obj = c03MakePod(r, p)
+		w.pods[p.id] = p
+		h.Op("poddef %d %d %d %s", p.id, p.quota, vB(p.np), p.req.toks())
+		w.dump()
+		addPod(p)
+	}
+	pending, admitted := 0, 0
+	reserve := func(p *c03Pod) {
+		h.Op("res %d", p.id)
+		st := gp.Reserve(context.TODO(), framework.NewCycleState(), p.obj, "n1")
+		if !st.IsSuccess() {
+			h.Fail("C03:reserve-failed", "Reserve returned %v", st.Code())
+		}
+		if p.inCache {
+			p.assigned = true
+		}
+		w.dump()
+	}
+	move := func(x *c03Quota, a, b int) {
+		np := a
+		if x.parent == a {
+			np = b
+		}
+		if w.moveShapeOK(x, np) {
+			w.doMove(x, np, false, &pending)
+		}
+	}
+	for step := 0; step < length; step++ {
+		ev := word % nev
+		word /= nev
+		h.Tag(fmt.Sprintf("event:%d", ev))
+		switch ev {
+		case 0, 1, 2:
+			p := w.pods[ev+1]
+			pending = 0
+			if p.inCache && !p.assigned && w.attempt(p) {
+				admitted++
+				reserve(p)
+			}
+		case 3:
+			if p := w.pods[1]; p.assigned {
+				h.Op("unres %d", p.id)
+				gp.Unreserve(context.TODO(), framework.NewCycleState(), p.obj, "n1")
+				p.assigned = false
+				w.dump()
+			}
+		case 4:
+			p := w.pods[2]
+			if p.inCache {
+				h.Op("del %d", p.id)
+				gp.OnPodDelete(p.obj)
+				p.inCache, p.assigned = false, false
+				if pending == p.id {
+					pending = 0
+				}
+				w.dump()
+			} else {
+				addPod(p)
+			}
+		case 5:
+			move(w.quotas[2], 3, 1)
+		case 6:
+			move(w.quotas[3], 1, 0)
+		case 7:
+			w.doFlip(w.quotas[1], false, pending)
+		case 8:
+			w.doFlip(w.quotas[2], true, pending)
+		case 9:
+			w.doFlip(w.quotas[3], true, pending)
+		case 10:
+			p := w.pods[2]
+			pending = 0
+			if p.inCache && !p.assigned && w.attempt(p) {
+				admitted++
+				pending = p.id
+			}
+		case 11:
+			if pending != 0 {
+				reserve(w.pods[pending])
+				pending = 0
 			}
 		}
 	}
